@@ -166,6 +166,120 @@ func slowCases(r *rng.R, n int) []fw.Case {
 	return cs
 }
 
+// ---- WHEN the answer comes: delayed answers around the time-out the transition gives its targets -----------------------
+
+// The core's numbers, for choosing delays and for the tags only (the harness takes no verdict from them): the default
+// response time-out and the one configureTasks puts on the CONFIGURE command.
+const (
+	defaultTimeoutS   = 90
+	configureTimeoutS = 120
+)
+
+func lateStr(base string, seconds int) string { return fmt.Sprintf("(late %s %d)", base, seconds*1000) }
+
+// lateCase: all-ok path to `pos`, then the request in which task `who` does `base` after `seconds` s (the others as in
+// outs). It is the last step: the case is over when the request is answered, after min(seconds, time-out) s.
+func lateCase(pos string, tasks []genTask, outs []string, who []int, base []string, seconds []int, extra ...string) fw.Case {
+	outs = append([]string(nil), outs...)
+	ev := strings.TrimSuffix(pos, "@new")
+	allowed := defaultTimeoutS
+	if ev == "CONFIGURE" {
+		allowed = configureTimeoutS
+	}
+	tags := []string{"late", "slow", "late:" + pos}
+	for k, i := range who {
+		outs[i] = lateStr(base[k], seconds[k])
+		if seconds[k] < allowed {
+			tags = append(tags, "late:inside")
+		} else {
+			tags = append(tags, "late:outside")
+		}
+		if seconds[k] > defaultTimeoutS && seconds[k] < configureTimeoutS {
+			tags = append(tags, "late:between-default-and-configure")
+		}
+		if tasks[i].crit {
+			tags = append(tags, "late:critical")
+		} else {
+			tags = append(tags, "late:noncritical")
+		}
+		tags = append(tags, "late:"+base[k])
+	}
+	return fw.Case{Input: at(pos, tasks, outs, false), Tags: append(tags, extra...)}
+}
+
+// lateCases: answers just inside and just outside the time each kind of transition allows (at least 8 s away from either
+// time-out: nearer, the reply and the core's timer race and the harness declares the run inconclusive). Every one sleeps
+// for the delay or for the core's time-out, whichever is shorter: they belong to the first block of `generate`.
+func lateCases(r *rng.R, n int) []fw.Case {
+	c := func(crit bool, mode, host string) genTask { return genTask{crit, mode, host, "ok"} }
+	two := []genTask{c(true, "direct", "h1"), c(false, "basic", "h2")}
+	one := func(i int, b string, s int) ([]int, []string, []int) { return []int{i}, []string{b}, []int{s} }
+	var cs []fw.Case
+	add := func(pos string, tasks []genTask, outs []string, who []int, base []string, seconds []int) {
+		cs = append(cs, lateCase(pos, tasks, outs, who, base, seconds, "late-fixed"))
+	}
+	{
+		// CONFIGURE inside NewEnvironment: the critical task needs 100 s — more than the default, within CONFIGURE's 120 s
+		w, b, s := one(0, "ok", 100)
+		add("CONFIGURE@new", two, []string{"ok", "ok"}, w, b, s)
+		// …and 130 s: too late even for CONFIGURE
+		w, b, s = one(0, "ok", 130)
+		add("CONFIGURE@new", two, []string{"ok", "ok"}, w, b, s)
+		// START: 80 s is in time, 100 s is not (what CONFIGURE allows, START does not)
+		w, b, s = one(0, "ok", 80)
+		add("START_ACTIVITY", two, []string{"ok", "ok"}, w, b, s)
+		w, b, s = one(0, "ok", 100)
+		add("START_ACTIVITY", two, []string{"ok", "ok"}, w, b, s)
+		// CONFIGURE through ControlEnvironment, two critical tasks on one host, both between the two time-outs
+		add("CONFIGURE", []genTask{c(true, "fairmq", "h1"), c(true, "direct", "h1"), c(false, "basic", "h2")}, []string{"ok", "ok", "ok"},
+			[]int{0, 1}, []string{"ok", "ok"}, []int{98, 110})
+		// STOP: a NON-critical task is too late — the core waits its 90 s and goes on without it
+		w, b, s = one(1, "stay", 100)
+		add("STOP_ACTIVITY", two, []string{"ok", "ok"}, w, b, s)
+		// RESET to a single critical task (single-response branch) that is too late
+		w, b, s = one(0, "ok", 98)
+		add("RESET", []genTask{c(true, "basic", "h2")}, []string{"ok"}, w, b, s)
+		// an ERROR reply of a non-critical task that comes in time for CONFIGURE (and would not for anything else)
+		w, b, s = one(1, "err", 105)
+		add("CONFIGURE", two, []string{"ok", "ok"}, w, b, s)
+		// a critical task's error reply just in time: the request fails when the reply comes, not at the time-out
+		w, b, s = one(0, "stay", 82)
+		add("START_ACTIVITY", two, []string{"ok", "ok"}, w, b, s)
+	}
+	if len(cs) > n {
+		cs = cs[:n]
+	}
+	for len(cs) < n {
+		cs = append(cs, randomLate(r.Fork()))
+	}
+	return cs
+}
+
+// randomLate: 1..3 tasks, one of them answers late at a random position; the delay is taken from the three bands around the
+// two time-outs (below the default, between the two, above CONFIGURE's), 8 s clear of both.
+func randomLate(r *rng.R) fw.Case {
+	nt := r.Range(1, 3)
+	tasks := randTasks(r, nt)
+	outs := make([]string, nt)
+	for i := range outs {
+		outs[i] = "ok"
+		if r.P(1, 5) {
+			outs[i] = rng.Pick(r, fastOutcomes)
+		}
+	}
+	who := r.N(nt)
+	var d int
+	switch r.N(4) {
+	case 0:
+		d = r.Range(70, defaultTimeoutS-8)
+	case 1, 2:
+		d = r.Range(defaultTimeoutS+8, configureTimeoutS-8)
+	default:
+		d = r.Range(configureTimeoutS+8, configureTimeoutS+15)
+	}
+	return lateCase(rng.Pick(r, positions), tasks, outs, []int{who}, []string{rng.Pick(r, fastOutcomes)}, []int{d}, "late-random")
+}
+
 // ---- executor / agent loss while a command is outstanding -------------------------------------------------------
 
 func lossMarkStr(agent bool, base, when string, upd bool) string {
@@ -645,9 +759,9 @@ func repairedCases() []fw.Case {
 }
 
 func generate(tier string, r *rng.R) []fw.Case {
-	nSlow, nDeploy, nWalk, maxSteps, nLoss, nLossSlow, nOffers := 13, 11, 120, 6, 30, 0, 36
+	nSlow, nDeploy, nWalk, maxSteps, nLoss, nLossSlow, nOffers, nLate := 13, 11, 120, 6, 30, 0, 36, 12
 	if tier == "thorough" {
-		nSlow, nDeploy, nWalk, maxSteps, nLoss, nLossSlow, nOffers = 70, 40, 1500, 9, 300, 20, 400
+		nSlow, nDeploy, nWalk, maxSteps, nLoss, nLossSlow, nOffers, nLate = 70, 40, 1500, 9, 300, 20, 400, 40
 	}
 	var cs []fw.Case
 	// slow ones first: they mostly sleep, the workers overlap them with everything else. EVERY case that runs into one
@@ -656,6 +770,7 @@ func generate(tier string, r *rng.R) []fw.Case {
 	cs = append(cs, slowCases(r.Fork(), nSlow)...)
 	lossSlow, lossFast := lossFixed()
 	cs = append(cs, lossSlow...)
+	lateAt := len(cs) // the cases with answers that come late go here (see the end)
 	rl := r.Fork()
 	for i := 0; i < nLossSlow; i++ {
 		cs = append(cs, randomLoss(rl.Fork(), true))
@@ -678,6 +793,10 @@ func generate(tier string, r *rng.R) []fw.Case {
 	for i := 0; i < nWalk; i++ {
 		cs = append(cs, randomWalk(r.Fork(), maxSteps))
 	}
+	// answers that come late: each sleeps for its delay or the core's time-out, so they go into the first block (quick tier:
+	// 16 + 12 slow cases < 40 workers). Their generator is forked LAST, so that every other case is what it was before.
+	late := lateCases(r.Fork(), nLate)
+	cs = append(cs[:lateAt:lateAt], append(late, cs[lateAt:]...)...)
 	return cs
 }
 
@@ -708,6 +827,9 @@ func nontrivial(in, obs string) bool {
 		return true
 	}
 	for _, s := range sc.steps {
+		if s.delayed() {
+			return true
+		}
 		for _, x := range s.outs {
 			if x != "ok" && x != "-" {
 				return true
@@ -789,16 +911,18 @@ func init() {
 			"(f) executor / agent loss while a command is outstanding (Mesos FAILURE event injected after the victim's reply has left / before it leaves, with / without the terminal status updates, the other targets answering only after the core has handled the loss): " +
 			"a grid of 2 tasks on 2 hosts x every critical mix x the victim's reply in {ok, error staying, error to ERROR} x START/STOP/RESET/CONFIGURE (48 cells; thorough: x executor/agent x with/without update = 192), 9 fixed shapes (neighbours on the lost executor, several tasks lost, a reply that never leaves, a silent victim that keeps the command outstanding by itself), 30 (thorough: 320) random ones over 2..4 tasks. " +
 			"(g) offers that come late (the simulated master leaves the offer of a host out of scripted offers rounds after DEPLOY revived offers; one round per deployment attempt of Manager.acquireTasks; a third agent without tasks is always offered): a grid of 2 tasks on 2 hosts x every critical mix x each host late by 0..3 rounds (3 = the attempt limit) = 64 cells, 12 fixed shapes (machines missing in turn, a later round incomplete again, several tasks on the late host, late and then dying / staying in staging, machines that no agent has, a request failing after a late deployment), 36 (thorough: 400) random ones over 1..4 tasks with ANY pattern of missing offers over 0..4 rounds; the observation of NewEnvironment carries the tasks launched per attempt (REVIVE / ACCEPT calls seen by the master) and, whenever NewEnvironment failed with every task launched (with or without scripted offers), whether acquireTasks is still parked at the receive of a round's verdict (goroutine dump; the model of the repaired code has no such run, so it would be a disagreement). " +
-			"non-trivial = at least one task and (two answered requests or a scripted failure or a missing offer); distinct by input text",
+			"(h) WHEN the answer comes: 12 (thorough: 40) cases in which a task does what it does only D seconds after the command (a timer inside the simulated task), D just inside / just outside the time the transition allows — below the 90 s default, between it and CONFIGURE's 120 s, above both, 8 s clear of either — at each of the 5 positions, critical and non-critical, acknowledgements and error replies (9 fixed shapes + random ones); each takes min(D, time-out) of real time. In EVERY case of (a)–(h) the observation of every request carries, per commanded task, the ResponseTimeout of the command the master saw go to it (the per-target copy the core's Servent waits for), which the model answers from CommandQueue.commit / MakeSingleTarget and Spec.C02 compares with the time the transition allows. " +
+			"non-trivial = at least one task and (two answered requests or a scripted failure or a missing offer or a delayed answer); distinct by input text",
 		Shrink:  shrink,
 		Workers: Workers,
 		TrustedBase: []string{
 			"harness/sim: simulated Mesos master, agents, executors and tasks (scripted per command), Consul KV, git workflow repository; the core itself is the real one (core.RunForVerif in a child process, real gRPC API)",
-			"harness/props/c02/run.go: request driver and observation (gRPC status, reply state, GetEnvironments afterwards, MESSAGE calls seen by the master)",
+			"harness/props/c02/run.go: request driver and observation (gRPC status, reply state, GetEnvironments afterwards, MESSAGE calls seen by the master and the ResponseTimeout their payload carries, decoded into the repository's own command type)",
 			"/repo/core/verif_hooks.go (core.RunForVerif) and the.SetEventWriterForVerif",
 		},
 		Assumptions: []string{
 			"wall-clock: a task that never answers is observed through the core's own response timeout (90 s; CONFIGURE 120 s) and deploy_timeout (8 s here); 'never returns' is observed as 'no answer for 22 s while the core lists the transition as in progress' on a path without timers",
+			"delayed answers: the simulated task starts a timer of D when the command is delivered and reacts when it fires; the harness checks on the master's trace that the reply left D +- 4 s after the command (or that the request was answered before it was due), and declares the run inconclusive otherwise or when D is within 5 s of the time-out the command carried (the reply and the core's timer race); a delayed answer is scripted only in the last request of a scenario",
 			"simulated executors stand in for o2-aliecs-executor (+ OCC/FairMQ tasks): they answer with the repository's own response types; fairmq-mode tasks are treated like direct ones",
 			"after a failed MESSAGE call (undeliverable) replies of the other targets may or may not arrive (the scheduler client drops its subscription): the driver accepts either, each being an instance of the model with those targets silent",
 			"who gets the transition mutex first after a failed slow transition (the environment's watcher or the RPC handler) decides the gRPC status: the driver accepts either where the model allows both",
